@@ -146,6 +146,8 @@ proof fn lemma_cat_first(seps: Seq<Seq<u8>>, ws: Seq<Seq<u8>>, rest: Seq<u8>)
     assert(w1.len() > 0 ==> may_follow(w1[w1.len() - 1], rest));
 }
 
+// own resource limit: near the unit's limit under some seeds (an rlimit is 'undecided', never an alarm, but a proof should not be flaky)
+#[verifier::rlimit(150)]
 pub proof fn theorem_tokens_read_back(pre: Seq<u8>, seps: Seq<Seq<u8>>, ws: Seq<Seq<u8>>, rest: Seq<u8>)
     requires separated(seps, ws, rest),
     ensures lex_seq(pre + cat(seps, ws) + rest, pre.len() as int, ws) == Some((pre.len() + cat(seps, ws).len()) as int),
